@@ -120,8 +120,8 @@ PROPS = {
               "more constraints incl. single literals). oracle: names, tree, abstract flags identical, constraints pairwise "
               "equivalent by truth table, 4 cycles with byte-identical text from the second generation on"),
         assumptions=["ElementTree.tostring + minidom.toprettyxml + ElementTree.parse preserve tags, attributes, child order "
-                     "and the text of text-only elements (validated on every case; names include line breaks and tabs, "
-                     "not carriage returns)"],
+                     "and the text of text-only elements (validated on every case; names include line breaks, tabs and "
+                     "carriage returns; not the empty name)"],
         trusted=["external: xml.etree.ElementTree, xml.dom.minidom"],
     ),
     "C08": dict(
